@@ -53,6 +53,8 @@ pub fn layouts() -> Vec<Layout> {
             files: { let mut f = common.clone(); f.extend(vec![("src/gen/g.txt", "generated"), ("src/gen/h.bin", "generated-binary")]); f },
             writes: vec!["out/o.txt"],
         },
+        // declared paths that are not in canonical form (a `..` component), inside the project
+        mk("non-canonical-paths", "t:\n  build: ':'\n  input: [{paths: [src/sub/../a.txt, src/sub/deep/../../sub]}]\n  output: [{paths: [out/../out/o.txt]}]\n", vec!["out/o.txt"]),
         mk("two-resources", "t:\n  build: ':'\n  input: [{paths: [src/a.txt]}, {paths: [src/sub], extensions: [txt]}]\n  output: [{paths: [out/o.txt]}]\n", vec!["out/o.txt"]),
         mk("cmd-only", "t:\n  build: ':'\n  input: [{cmd_stdout: 'cat v.txt'}]\n  output: [{paths: [out/o.txt]}]\n", vec!["out/o.txt"]),
         mk("file+cmd", "t:\n  build: ':'\n  input: [{paths: [src/a.txt]}, {cmd_stdout: 'cat v.txt'}]\n  output: [{paths: [out/o.txt]}, {cmd_stdout: 'cat out/o.txt'}]\n", vec!["out/o.txt"]),
